@@ -229,7 +229,7 @@ def gen_frames(rng, n):
     if x < 0.55:
         return rng.choice([1, 2, 3, -1, -2, -3, 0, n, n + 2])
     k = rng.randint(0, 4)
-    return [rng.randint(-n, n + 2) for _ in range(k)]
+    return [rng.randint(-n - 1 if rng.random() < 0.15 else -n, n + 2) for _ in range(k)]
 
 
 UNITS = ["auto", "m", "mm", "cm", "dm", "µm", "nm", "km", "Mm", None]
@@ -441,10 +441,8 @@ def features(spec):
         nrm = np.cross(v[1] - v[0], v[2] - v[1])
         if np.all(np.cross(np.array(spec["params"].get("pol", (0.1, 0.2, 0.3)), dtype=float), nrm) == 0):
             f.append("magnetised-along-normal-or-not")      # the branch of make_Triangle that thickens the facet
-    if body_size(spec) >= 8:
-        f.append("large")
-    elif body_size(spec) <= 0.05:
-        f.append("small")
+    if spec.get("scale_dependent"):
+        f.append("scale-dependent")        # the same object scaled down to size 0.1 passes
     if len(pos) > 1:
         f.append("path")
     if np.abs(rot.as_rotvec()).max() > 0:
@@ -664,10 +662,12 @@ def shrink_spec(spec, fails):
             cur = c
             break
     L = body_size(cur)
-    if not 0.3 <= L <= 3.5:
-        k = 10.0 ** (-round(math.log10(L)))
-        if attempt(rescale_params(cur, k)):
-            cur = rescale_params(cur, k)
+    if L > 0 and abs(math.log10(L / 0.1)) > 0.05:
+        unit = rescale_params(cur, 0.1 / L)       # the same object at size 0.1
+        if attempt(unit):
+            cur = unit
+        else:
+            cur = {**cur, "scale_dependent": True}
     z = [[0.0, 0.0, 0.0]] * len(cur["pos"])
     if attempt({**cur, "rotvec": z}):
         cur = {**cur, "rotvec": z}
@@ -678,6 +678,14 @@ def shrink_spec(spec, fails):
 
 def report(ctx, spec, res, fn=check_single):
     clause = res[0]
+    seen = ctx.__dict__.setdefault("_c19_reported", {})
+    key = (clause, spec["cls"], fn.__name__)
+    seen[key] = seen.get(key, 0) + 1
+    if seen[key] > 3:          # same clause on the same class many times: do not shrink each of them again
+        for f in ctx.impl_failures:
+            if f["signature"].startswith(f"{clause}/{spec['cls']}:"):
+                f["count"] += 1
+                return
     small = shrink_spec(spec, lambda s: (safe_check(fn, s) or (None,))[0] == clause)
     res2 = safe_check(fn, small) or res
     ctx.impl_fail(f"{clause}/{small['cls']}:{features(small)}", res2[1], small)
@@ -1143,6 +1151,60 @@ def show_cases(ctx, rng, count):
     return out
 
 
+def triangle_cases(ctx, rng, count):
+    """make_Triangle through show(Triangle, units_length='mm'): both branches, integer vertices"""
+    out = []
+    for t in range(count):
+        sc = rng.choice([1, 1, 7, 40])
+        while True:
+            v = [[rng.randint(-4, 4) * sc for _ in range(3)] for _ in range(3)]
+            a = np.array(v)
+            nrm = np.cross(a[1] - a[0], a[2] - a[1])
+            if np.abs(nrm).max() > 0:
+                break
+        kind = t % 4
+        if kind == 0:
+            mag = [0, 0, 0]
+        elif kind == 1:             # exactly along the normal: facet in a coordinate plane
+            ax = rng.randrange(3)
+            for row in v:
+                row[ax] = v[0][ax]
+            a = np.array(v)
+            nrm = np.cross(a[1] - a[0], a[2] - a[1])
+            if np.abs(nrm).max() == 0:
+                continue
+            mag = [0, 0, 0]
+            mag[ax] = rng.choice([-2, 1, 3])
+        else:
+            mag = [rng.randint(-3, 3) for _ in range(3)]
+        tri = magpy.misc.Triangle(magnetization=mag, vertices=v)
+        dr = do_show([tri], {"backend": "plotly", "return_fig": True, "units_length": "mm",
+                             "style_orientation_show": False})
+        body = [x for x in dr["traces"] if x["type"] == "mesh3d"]
+        if len(body) != 1:
+            raise AssertionError("Triangle figure without exactly one mesh")
+        got = octa.ints(body[0]["xyz"], tol=1e-6 * max(1.0, np.abs(body[0]["xyz"]).max()))
+        out.append((f"(CTri {cv(mag)} {cv(v[0])} {cv(v[1])} {cv(v[2])} {c_vlist(got)})",
+                    {"kind": "triangle", "mag": mag, "verts": v, "drawn_vertices": len(got)}))
+        ctx.bump("triangle:" + ("thickened" if len(got) == 6 else "plain"))
+    return out
+
+
+def triangle_model_check(ctx, cases):
+    txt = (CASES_HEADER.replace("Model.DisplayExec.", "Model.DisplayExec Model.DisplayTriangle Model.DisplayTriangleExec.")
+           + "Definition cases : list tcase :=\n" + clist([c for c, _ in cases]).replace("; (C", ";\n (C")
+           + ".\nEval vm_compute in (tfailing cases).\n")
+    ok, out = ctx.coq_eval("c19_triangle", txt)
+    res = octa.parse_z_list(out) if ok else None
+    if res is None:
+        ctx.add_broken("broken-correspondence", "c19_triangle", "model evaluation failed:\n" + out[-1500:])
+        return
+    ctx.count("traces_validated_against_impl", len(cases) - len(res))
+    for bi in res[:5]:
+        ctx.add_broken("broken-correspondence", "DisplayTriangle vs make_Triangle", json.dumps(cases[bi][1]) + " :: "
+                       + cases[bi][0][:400])
+
+
 def model_check(ctx, tag, cases):
     bad = []
     chunk = 500
@@ -1224,7 +1286,7 @@ def units_correspondence(ctx):
 def search(ctx, big):
     rng = ctx.rng
     mult = 4 if big else 1
-    per_cls = ctx.n(10, 120) * mult
+    per_cls = ctx.n(10, 300) * mult
     # 1. every class alone, generic poses / paths / frames / units
     for cls in ALL_CLASSES:
         for t in range(per_cls):
@@ -1258,7 +1320,7 @@ def search(ctx, big):
                 if res is not None:
                     report(ctx, spec, res)
     # 2. scenes with collections and nesting
-    for t in range(ctx.n(25, 300) * mult):
+    for t in range(ctx.n(25, 700) * mult):
         spec = gen_scene(rng, ALL_CLASSES)
         res = safe_check(check_scene, spec)
         ctx.case(("scene", json.dumps(spec, sort_keys=True)), True)
@@ -1266,7 +1328,7 @@ def search(ctx, big):
         if res is not None:
             ctx.impl_fail(f"{res[0]}/Collection:{spec['shape']}", res[1], spec)
     # 3. nothing is modified: valid shows and every failing argument set, lazy and materialised styles
-    for t in range(ctx.n(40, 400) * mult):
+    for t in range(ctx.n(40, 1000) * mult):
         if t % 4 == 0:
             spec = gen_scene(rng, ALL_CLASSES)
         else:
@@ -1287,7 +1349,7 @@ def search(ctx, big):
             report_unchanged(ctx, spec, res)
     magpy.defaults.reset()
     # 4. matplotlib data = plotly data; sliced matplotlib meshes; animation frames
-    for t in range(ctx.n(22, 220) * mult):
+    for t in range(ctx.n(22, 500) * mult):
         cls = (MAGNETS + CURRENTS)[t % 9]
         spec = gen_single(rng, cls)
         if spec_frames(len(path_arrays(spec)[0]), spec["frames"]) is None:
@@ -1302,7 +1364,7 @@ def search(ctx, big):
             ctx.case(("mpl-sliced", json.dumps(spec, sort_keys=True)), True)
             if res is not None:
                 ctx.impl_fail(f"{res[0]}/{cls}:matplotlib-sliced", res[1], {**spec, "kind": "mpl-sliced"})
-    for t in range(ctx.n(11, 110) * mult):
+    for t in range(ctx.n(11, 250) * mult):
         spec = gen_single(rng, ALL_CLASSES[t % len(ALL_CLASSES)])
         spec["kind"] = "animation"
         res = safe_check(check_animation, spec)
@@ -1322,13 +1384,16 @@ def run(ctx):
         "case = one figure specification (class, parameters, path, frame selection, unit, backend); distinct by "
         "canonical JSON")
     ctx.partial += ["C19_drawn_copies_partial"]
+    ctx.refuted += ["C19_triangle_on_surface_refuted"]
     ctx.trusted += [
         "translator translate/gen_units.py (_UNIT_PREFIX, get_unit_factor, unit_prefix head, the two call sites "
         "in get_frames -> Gen/GenUnits.v), cross-checked against the real functions on unit strings",
         "hand model coq/Model/DisplayModel.v of get_rot_pos_from_path, place_and_orient_model3d (per vertex), "
         "get_generic_traces3D's placement calls, make_path, rescale_traces, style_temp_edit/get_traces_3D; tied by "
         "correspondence on exact inputs (frames, placement, whole show() of a Polyline read from the plotly figure)",
-        "NOT modelled (PARTIAL): the per-class local shape generators (traces_core.make_*, traces_base.py), "
+        "hand model coq/Model/DisplayTriangle.v of make_Triangle (both branches), tied by correspondence with the "
+        "plotly figure of show(Triangle, units_length='mm') on integer vertices",
+        "NOT modelled (PARTIAL): the other per-class local shape generators (traces_core.make_*, traces_base.py), "
         "group/merge of traces, the backends' conversion; these are covered only by the search oracle on figures",
         "SI prefix table in Model/DisplayUnits.v (si_prefix_spec) and in the harness (SI) are hand-written "
         "specifications",
@@ -1354,6 +1419,10 @@ def run(ctx):
             ctx.add_broken("broken-correspondence", "DisplayModel vs implementation",
                            json.dumps(cases[bi][1]) + " :: " + cases[bi][0][:600])
         units_correspondence(ctx)
+        tcs = triangle_cases(ctx, rng, ctx.n(80, 600))
+        for c, _ in tcs:
+            ctx.case(c, True)
+        triangle_model_check(ctx, tcs)
 
     run_guarded(ctx, corr, "C19 correspondence")
     big = bool(ctx.broken)
